@@ -422,6 +422,13 @@ func (fc *FnCtx) objValue(env *Env, obj types.Object) (Val, types.Type) {
 
 func (fc *FnCtx) resolveType(env *Env, ct CType) types.Type {
 	var t types.Type
+	if ct.MapKey != nil {
+		t = types.NewMap(fc.resolveType(env, *ct.MapKey), fc.resolveType(env, *ct.MapElem))
+		if ct.Slice {
+			t = types.NewSlice(t)
+		}
+		return t
+	}
 	if ct.Pkg == "" {
 		if obj := types.Universe.Lookup(ct.Name); obj != nil {
 			if tn, ok := obj.(*types.TypeName); ok {
@@ -731,9 +738,9 @@ func (fc *FnCtx) transCall(env *Env, e *CCall) (Val, types.Type) {
 			return fc.transExpr(&env2, e.Args[0])
 		case "len":
 			x, xt := argT(0)
-			switch types.Unalias(xt).Underlying().(type) {
+			switch mt := types.Unalias(xt).Underlying().(type) {
 			case *types.Map:
-				return tb.Ite(tb.Eq(x, tb.Const("null", "Ref")), tb.Int(0), fc.mapCard(env.st, x)), intT
+				return tb.Ite(tb.Eq(x, tb.Const("null", "Ref")), tb.Int(0), fc.mapCard(env.st, mt, x)), intT
 			case *types.Array:
 				return tb.Int(types.Unalias(xt).Underlying().(*types.Array).Len()), intT
 			}
@@ -767,6 +774,14 @@ func (fc *FnCtx) transCall(env *Env, e *CCall) (Val, types.Type) {
 		case "tag":
 			x, _ := argT(0)
 			return tb.App("i_tag", "Int", x), intT
+		case "iface":
+			// iface(x): x converted to an interface value (as Go does implicitly at calls)
+			x, xt := argT(0)
+			if x.Sort == "Iface" {
+				return x, xt
+			}
+			box, _ := fc.so.BoxFns(xt)
+			return tb.App(box, "Iface", x), types.NewInterfaceType(nil, nil)
 		case "visited":
 			// visited(k): key k already iterated in the (single) map-range loop of this loop env
 			k, _ := argT(0)
@@ -820,6 +835,31 @@ func (fc *FnCtx) transCall(env *Env, e *CCall) (Val, types.Type) {
 				fc.tfail("infunc needs a string literal")
 			}
 			return tb.Bool(fc.fnName() == s.Val || fc.fn.Name() == s.Val), boolT
+		}
+		// defined specification predicates: expanded here, evaluated in the current state
+		if d, ok := fc.eng.cs.Defines[id.Name]; ok {
+			if len(e.Args) != len(d.Params) {
+				fc.tfail("define %s expects %d arguments", d.Name, len(d.Params))
+			}
+			di := fc.defineInfo(env, d)
+			var args []*Term
+			for _, k := range di.keys {
+				args = append(args, fc.heapGet(env.st, k, fc.keySort[k]))
+			}
+			for i := range d.Params {
+				v, _ := fc.transExpr(env, e.Args[i])
+				if v == nil {
+					v = fc.so.Zero(di.ptypes[i])
+				}
+				if v.(*Term).Sort != fc.so.Sort(di.ptypes[i]) {
+					fc.tfail("define %s: argument %d has sort %s, parameter %s wants %s", d.Name, i, v.(*Term).Sort, d.Params[i].Name, fc.so.Sort(di.ptypes[i]))
+				}
+				args = append(args, v.(*Term))
+			}
+			if len(args) == 0 {
+				return tb.Const(di.fn, di.ret), di.rtype
+			}
+			return tb.App(di.fn, di.ret, args...), di.rtype
 		}
 		// ghost maps
 		if g, ok := fc.eng.cs.Ghosts[id.Name]; ok {
